@@ -59,31 +59,52 @@ def _noise(rng, g):
     # valid programs that advance every counter a lot before the program under test
     return g.program(nclauses=3, rich=0.8)
 
-def gen_batch(rng, g, sg, nprog, nproc):
+def gen_batch(rng, g, sg, nprog, nproc, npairs=2):
     programs = []
+    related = {}            # program index -> indices of noise texts that are look-alikes of it
     for i in range(nprog):
         k = rng.random()
-        if k < 0.45:
+        if k < 0.4:
             programs.append(g.program(nclauses=rng.choice([1, 2, 3]), rich=0.8))
-        elif k < 0.75:
+        elif k < 0.6:
             programs.append('\n'.join(render_clause(sg.clause()) for _ in range(rng.choice([1, 2, 4]))) + '\n')
+        elif k < 0.75:
+            programs.append(g.anon_program())
         elif k < 0.9:
             programs.append(g.program())
         else:
             programs.append(rng.choice([g.bad_syntax, g.bad_visitor, g.bad_head])())   # errors must be deterministic too
     noise = [_noise(rng, g) for _ in range(8)]
+    # RELATED earlier compilations: for every program a respelling of it (quotes added / removed), and pairs of look-alike
+    # programs (same shape, slots filled with terms whose unquoted printed forms collide) that are BOTH programs under test
+    # and each other's noise: a process-wide cache keyed by anything less than the term itself makes one of them wrong
+    for i in range(len(programs)):
+        noise.append(g.respell(programs[i]))
+        related[i] = [len(noise) - 1]
+    for _ in range(npairs):
+        a, b = g.lookalike_pair()
+        ia, ib = len(programs), len(programs) + 1
+        programs += [a, b]
+        noise += [a, b]
+        related[ia] = [len(noise) - 1]      # b before a
+        related[ib] = [len(noise) - 2]      # a before b
     seeds = [0, 1] + rng.sample(range(2, 4000), nproc - 2)
     procs = []
     for s in seeds:
-        order = list(range(nprog))
+        order = list(range(len(programs)))
         rng.shuffle(order)
         mode = rng.choice(MODES)
-        plan = [[pi, [rng.randrange(len(noise)) for _ in range(rng.choice([0, 0, 1, 2, 3, 5]))], mode] for pi in order]
+        plan = []
+        for pi in order:
+            before = [rng.randrange(8) for _ in range(rng.choice([0, 0, 1, 2, 3, 5]))]
+            if rng.random() < 0.6:
+                before += related[pi]          # the look-alike is the LAST thing compiled before the program
+            plan.append([pi, before, mode])
         procs.append({'hashseed': s, 'plan': plan})
     return {'kind': 'batch', 'programs': programs, 'noise': noise, 'procs': procs}
 
 def gen(rng, tier):
-    nbatch, nprog, nproc, ndecl = (12, 8, 8, 240) if tier == 'quick' else (100, 12, 12, 2500)
+    nbatch, nprog, nproc, ndecl = (12, 7, 8, 240) if tier == 'quick' else (100, 10, 12, 2500)
     g = Gen(rng, special=0.15)
     sg = SGen(rng)
     batches = [gen_batch(rng, g, sg, nprog, nproc) for _ in range(nbatch)]
@@ -111,6 +132,17 @@ def builtin_corpus():
         order = list(range(len(progs))); r.shuffle(order)
         procs.append({'hashseed': s, 'plan': [[pi, [r.randrange(len(noise)) for _ in range(k % 6)], MODES[k % len(MODES)]] for pi in order]})
     L.append({'kind': 'batch', 'programs': progs, 'noise': noise, 'procs': procs})
+    # look-alike terms: each program is compiled right after its partner (and the other way round) in every process
+    pairs = ["t(text('hello,world')).\n", "t(text(hello,world)).\n", "l(['so,long',friend]).\n", "l([so,long,friend]).\n",
+             "n('1', 1, 'X', X).\n", "n(1, '1', X, 'X').\n", "e('[]', [], '_', _).\n", "e([], '[]', _, '_').\n",
+             "p(_, a).\nq(_).\np(_, b).\n", "p(_, a).\n:- d(_, X).\nq(_).\np(_, b).\n"]
+    procs = []
+    for k, s in enumerate([0, 1, 7, 99, 1234, 5, 77, 4242]):
+        order = list(range(len(pairs)))
+        if k % 2:
+            order.reverse()
+        procs.append({'hashseed': s, 'plan': [[pi, [pi ^ 1] * (1 + k % 2), MODES[k % len(MODES)]] for pi in order]})
+    L.append({'kind': 'batch', 'programs': pairs, 'noise': pairs, 'procs': procs})
     v = lambda n: ['v', n]
     L.append({'kind': 'decl', 'clause': {'name': 'p', 'args': [v('X'), v('X'), ['_'], ['l', [v('H'), ['_']]]], 'body': ['ite', ['call', 'q', [['_'], v('H')]], ['=', v('Y'), v('X')], ['call', 'r', [v('Z'), v('Y')]]]}})
     L.append({'kind': 'decl', 'clause': {'name': 'p', 'args': [], 'body': None}})
